@@ -1184,6 +1184,9 @@ class Model:
         u = self.user_of(cid)
         n = cmd["nick"]
         cnt = self.whowas.get(n, 0)
+        want = cnt if not cmd.get("count") else min(cnt, cmd["count"])
+        if cnt:
+            e.query = _count_checker("314", want, "whowas")
         if cnt == 0:
             e.need("406", p0=u.nick, p1=n)
             e.forbid.add("314")
@@ -1472,5 +1475,14 @@ def _away_checker(away_targets):
         extra = got - away_targets
         if extra:
             return ["away: 301 for %s who is not away (or NOTICE answered)" % sorted(extra)]
+        return []
+    return f
+
+
+def _count_checker(code, want, tag):
+    def f(lines):
+        n = sum(1 for m in lines if m.verb == code)
+        if n != want:
+            return ["%s: %d %s entries, expected %d" % (tag, n, code, want)]
         return []
     return f
